@@ -89,7 +89,35 @@ fn exec_real(c: &Call, real: &[Option<usize>]) -> Result<Result<String, String>,
       Call::AddSt(s) => st.insert_stmoc(to_moc2(s)).map(|i| format!("K{}", i)),
       Call::Copy(h) => st.copy(idx(*h)).map(|_| "OK".to_string()),
       Call::Drop(h) => st.drop(idx(*h)).map(|_| "OK".to_string()),
-      Call::Read(h) | Call::Split(h, _) => read_value(idx(*h)),
+      Call::Read(h) | Call::Split(h, _) => {
+        // a read also asks the store whether the MOC equals itself: true for a live index, an error for a dead one
+        let i = idx(*h);
+        let v = read_value(i);
+        let e = st.eq(i, i);
+        // every read-only accessor must refuse a dead index
+        if v.is_err() {
+          let probes: Vec<(&str, bool)> = vec![
+            ("is_empty", st.is_empty(i).is_ok()),
+            ("get_n_ranges", st.get_n_ranges(i).is_ok()),
+            ("get_ranges_sum", st.get_ranges_sum(i).is_ok()),
+            ("get_coverage_percentage", st.get_coverage_percentage(i).is_ok()),
+            ("get_1st_axis_min", st.get_1st_axis_min(i).is_ok()),
+            ("get_1st_axis_max", st.get_1st_axis_max(i).is_ok()),
+            ("to_ascii_str", st.to_ascii_str(i, None).is_ok()),
+            ("to_json_str", st.to_json_str(i, None).is_ok()),
+            ("to_ranges", st.to_ranges(i).is_ok()),
+            ("get_smoc_depth", st.get_smoc_depth(i).is_ok()),
+            ("get_stmoc_depths", st.get_stmoc_depths(i).is_ok()),
+          ];
+          if let Some((name, _)) = probes.iter().find(|(_, ok)| *ok) {
+            return Ok(format!("DEAD-INDEX-ACCEPTED by {}", name));
+          }
+        }
+        match (&v, &e) {
+          (Ok(_), Ok(true)) | (Err(_), Err(_)) => v,
+          _ => Ok(format!("EQ-INCONSISTENT read={:?} eq(i,i)={:?}", v, e)),
+        }
+      }
       Call::Not(h) => st.not(idx(*h)).map(|i| format!("K{}", i)),
       Call::Deg(h, d) => st.degrade(idx(*h), *d).map(|i| format!("K{}", i)),
       Call::Op2(o, a, b) => match *o {
